@@ -157,7 +157,7 @@ ALLOPS = dict(OPS, **EXTRA_OPS)
 
 def make_block(ctx, family):
     arg = sym_bytes("prepend_arg", 2)
-    ua = sym_bytes("ua_tail", 2) if family not in (4, 5) else SymBytes(list(b"ok"))
+    ua = sym_bytes("ua_tail", 2) if family not in (4, 5, 6) else SymBytes(list(b"ok"))
     for c in ua.cells:
         if isinstance(c, int):
             if not 0x20 <= c <= 0x7E:
@@ -170,13 +170,15 @@ def make_block(ctx, family):
         # static Host headers in both client programs (a domain-fronting profile)
         get.insert(1, ("_HOSTHEADER", b"Host: cdn.example.net"))
         post.insert(0, ("_HOSTHEADER", b"Host: cdn.example.net"))
-    recover = {5: [("print", True), ("mask", True)], 0: [("print", True), ("base64", True), ("prepend", 3)],
+    recover = {6: [("print", True)], 5: [("print", True), ("mask", True)], 0: [("print", True), ("base64", True), ("prepend", 3)],
                1: [("print", True), ("append", 0), ("mask", True)],
                2: [("print", True)], 3: [("print", True)], 4: [("print", True)]}[family]
     # BeaconGate vector: Core and Cleanup complete, Comms off -> the pretty value is the (not alphabetically ordered) list ['Core', 'Cleanup']
     gate_fields = [f.name for f in beacon.BeaconGateOptions.__fields__]
     gate = [0 if n in ("InternetOpenA", "InternetConnectA") else 1 for n in gate_fields]
-    cells = CB.http_config(get=get, post=post, recover=recover, ua=SymBytes(list(b"Mozilla/5.0 ") + ua.cells), extra=((78, CB.PTR, gate),) if family == 4 else ())
+    cells = CB.http_config(get=get, post=post, recover=recover, ua=SymBytes(list(b"Mozilla/5.0 ") + ua.cells), extra=((78, CB.PTR, gate),) if family == 4 else
+                           # process-inject execute list CreateThread, NtQueueApcThread-s, RtlCreateUserThread (+ padding)
+                           ((51, CB.PTR, [1, 8, 4, 0] + [0] * 12),) if family == 6 else ())
     if family == 3:
         # a block in which setting indices occur twice (the library accepts it; the later record wins): one duplicate pair early in
         # the block, one at its end
@@ -267,6 +269,9 @@ def instances(tier):
     for o in ("settings", "C2Http(aes+hmac)", "get transform/recover", "post transform/recover", "client dry run", x) + (() if q else ("profile",)):
         for hist in ((x, o), (o, x)) if o != x else ((x, x),):
             out.append(Instance("pair %s ; %s host-header block" % hist, h_history(hist, 5), dict(kind="history", ops=list(hist), family=5)))
+    # process-inject family: an execute list whose entries the profile generator re-spells
+    for hist in (("profile", "settings"), ("profile", "settings_by_index"), ("profile", "profile"), ("settings_by_index", "profile")):
+        out.append(Instance("pair %s ; %s execute-list block" % hist, h_history(hist, 6), dict(kind="history", ops=list(hist), family=6)))
     out.append(Instance("mappings reject mutation", h_mutation(), dict(kind="mutation")))
     for i in out:
         i.native_patches = [(c2, "random", models_lib.RandomShim)]
